@@ -431,19 +431,6 @@ def run(ctx: Any, prog: Program) -> None:
                               '(`models/swarm/Bayonet/...` comes back lower-cased), so the binary format does not round-trip what the text format does', func=q11, text=f'{q11}: strings written unfolded')
     ctx.shape('C16.Q1', n_sd >= 10, edb11, edb11.tree, f'{n_sd} str_dict()/write() calls found in the serialisers of _engine_db.py', text='database string writes')
 
-    # Q6 (numbers): helper arguments are formatted exactly.  `{x:g}` / `%g` keep six significant digits and switch to exponent form at 1e6:
-    # frustum(52.734375, 4, 1250000.5) is exported as frustum(52.7344, 4, 1.25e+06) and parses back as other numbers.  Colour components
-    # (whole numbers 0-255) are the only arguments written that way.
-    hm16 = prog.module('_fgd_helpers')
-    for q16, fl16 in hm16.all_funcs().items():
-        if not q16.endswith('.export'):
-            continue
-        for f16 in fl16:
-            for fv in [x for x in ast.walk(f16) if isinstance(x, ast.FormattedValue) and x.format_spec is not None and any(isinstance(c, ast.Constant) and str(c.value).strip().endswith(('g', 'e', 'G')) for c in ast.walk(x.format_spec))]:
-                colour = any(k in U(fv.value).casefold() for k in ('color', 'colour', 'tint', '.r', '.g', '.b')) or (isinstance(fv.value, ast.Name) and len(fv.value.id) == 1 and fv.value.id in 'rgb') \
-                    or any(isinstance(a_, (ast.For, ast.comprehension)) and any(k in U(a_.iter).casefold() for k in ('color', 'colour', 'tint')) for a_ in ast.walk(f16) if any(fv is y for y in ast.walk(a_)))
-                ctx.check('C16.Q6', colour, hm16, fv, f'{q16} formats `{U(fv.value)[:30]}` with `{U(fv)[:30]}`: six significant digits (and exponent form from 1e6) - a numeric helper argument with more digits is exported as another '
-                          'number than the helper holds', func=q16, text=f'{q16}: `{U(fv)[:30]}` formats exactly')
     # Q1 (order): the binary serialisers write collections in the order the definition holds them.  `sorted(...)` over a field (spawnflags by
     # mask) gives a canonical file but another definition: flags_list order is what the text export writes.
     for q11, fl11 in prog.module('_engine_db').all_funcs().items():
